@@ -319,6 +319,11 @@ class Transport:
                     reply = Reply(int(directive.get('status', 503)), temp_error_body('inj%d' % self.attempts))
                 else:
                     reply = Reply.text('Assert_failure src/lib_shell/prevalidator.ml:1918:6 inj', 500)
+            elif f == 'status':
+                # the endpoint answers with a plain HTTP error (a gateway hiding an RPC: 404 / 401 / 403)
+                sim.stats['fault:status'] += 1
+                rec['fault'] = 'status:%s' % directive.get('code', 404)
+                reply = Reply.text('not available here', int(directive.get('code', 404)))
             elif f == 'reject':
                 sim.stats['fault:reject'] += 1
                 rec['fault'] = 'reject:' + directive.get('how', 'exc')
